@@ -1,7 +1,9 @@
 import CryoCat.Drv.Proto
 import CryoCat.Model.C17
 import CryoCat.Model.C17_Wedge
+import CryoCat.Model.C17_Load
 import CryoCat.Lemmas.C17_Mdoc
+import CryoCat.Lemmas.C17_ParseWF
 namespace CryoCat.Drv.C17
 open Lean CryoCat CryoCat.C17
 
@@ -41,10 +43,10 @@ def leRat (a b : Rat) : Bool := decide (a ≤ b)
 /-- one step of an operation sequence on an Mdoc object -/
 def step (m : Mdoc) (j : Json) : Option Mdoc :=
   match getStr? j "k" with
-  | some "sort" => some (sortByTilt ((getBool? j "reset").getD false) m)
+  | some "sort" => if (getBool? j "reset").getD false then some (sortByTilt true m) else Op.apply .sort m
   | some "remove" =>
     match getArr? j "idxs" >>= parseInts with
-    | some idxs => removeImages idxs ((getBool? j "kept_only").getD true) m
+    | some idxs => Op.apply (.remove idxs ((getBool? j "kept_only").getD true)) m
     | none => none
   | _ => none
 
@@ -60,6 +62,7 @@ def handleMdoc (j : Json) : Json :=
     let reread := written.bind parseMdoc
     let fresh := parsed.map (printMdoc true)
     Json.mkObj [("parsed", optJ mdocJ parsed), ("after", optJ mdocJ after),
+                ("text_ok", Json.bool (textOk lines)),
                 ("wf", optJ (fun m => Json.bool (wfb m)) parsed), ("wf_after", optJ (fun m => Json.bool (wfb m)) after),
                 ("kept", optJ (fun m => listJ rowJ (keptImages m)) after),
                 ("written", optJ (listJ sJ) written), ("reread", optJ mdocJ reread),
@@ -110,6 +113,11 @@ def wrowJ (r : WedgeRow Rat) : Json :=
 
 def emJ (r : Int × Rat × Rat) : Json := Json.arr #[Json.num (JsonNumber.fromInt r.1), ratJ r.2.1, ratJ r.2.2]
 
+def cellJ : WCell Rat → Json
+  | .int n => Json.num (JsonNumber.fromInt n)
+  | .num x => ratJ x
+  | .nan => Json.null
+
 def handleWedge (j : Json) : Json :=
   match (j.getObjVal? "consts").toOption >>= parseRats, getArr? j "tomos" >>= (fun a => a.toList.mapM parseTomo) with
   | some [px, vo, am, cs], some tomos0 =>
@@ -124,7 +132,12 @@ def handleWedge (j : Json) : Json :=
                 ("single", listJ (fun t => optJ (listJ wrowJ) (wedgeSingle c t)) tomos),
                 ("header", listJ (fun (s : String) => Json.str s) (wedgeHeader hasCtf hasDose)),
                 ("em", optJ (listJ emJ) (wedgeEm leRat (tomos.map (fun t => (t.id, t.tilts))))),
-                ("sg2em", optJ (listJ emJ) (rows.bind (fun rs => sgToEm leRat (rs.map (fun r => (r.tomoNum, r.tiltAngle))))))]
+                ("sg2em", optJ (listJ emJ) (rows.bind (fun rs => sgToEm leRat (rs.map (fun r => (r.tomoNum, r.tiltAngle)))))),
+                -- the file layer: the table that is written, what `load_wedge_list_sg` makes of it, `wedge_list_sg_to_em` on it
+                ("table_cols", optJ (fun rs => listJ (fun (s : String) => Json.str s) (sgTable rs).cols) rows),
+                ("table_rows", optJ (fun rs => listJ (listJ cellJ) (sgTable rs).rows) rows),
+                ("table_reload_same", optJ (fun rs => Json.bool (loadSg ((sgTable rs).mapCells id) == some rs)) rows),
+                ("sg2em_table", optJ (listJ emJ) (rows.bind (fun rs => sgToEmFile leRat ((sgTable rs).mapCells id))))]
   | _, _ => err "bad-args"
 
 def handleTlt (j : Json) : Json :=
@@ -133,8 +146,56 @@ def handleTlt (j : Json) : Json :=
                            ("unsorted", listJ ratJ (tltLoad leRat false xs)), ("dose", listJ ratJ (doseLoad xs))]
   | none => err "bad-args"
 
+/-- the two views of a path input: as an mdoc (tilts resp. dose) and as a one-value-per-line file -/
+def parseViews (j : Json) (dose : Bool) : FileViews Rat :=
+  let md : Option Mdoc := (getArr? j "lines" >>= parseStrs) >>= parseMdoc
+  { mdoc := if dose then md >>= mdocDose else md.map (mdocTilts false),
+    lines := (j.getObjVal? "vals").toOption >>= parseRats }
+
+def parseLoadIn (j : Json) (dose : Bool) : Option (LoadIn Rat) :=
+  match getStr? j "kind" with
+  | some "array" => ((j.getObjVal? "vals").toOption >>= parseRats).map LoadIn.array
+  | some "list" => ((j.getObjVal? "vals").toOption >>= parseRats).map LoadIn.list
+  | some "file" => (getStr? j "path").map (fun p => LoadIn.file p.toList (parseViews j dose))
+  | _ => none
+
+/-- `tlt_load` / `total_dose_load` on any input kind: the reader chosen for a path, and the result (`null` = raises / outside) -/
+def handleLoadIn (j : Json) (dose : Bool) : Json :=
+  match parseLoadIn j dose with
+  | none => err "bad-args"
+  | some inp =>
+    let reader : Json := match inp with
+      | .file p _ => Json.str (if dose then dispatch Gen.C17.doseDispatch Gen.C17.doseDefault p else dispatch Gen.C17.tltDispatch Gen.C17.tltDefault p)
+      | _ => Json.null
+    let out := if dose then doseLoadIn inp else tltLoadIn leRat ((getBool? j "sort").getD Gen.C17.tltSortsByDefault) inp
+    Json.mkObj [("reader", reader), ("out", optJ (listJ ratJ) out)]
+
+def parseRatRows (j : Json) : Option (List (List Rat)) := match j with | Json.arr a => a.toList.mapM parseRats | _ => none
+
+def handleDefocusIn (j : Json) : Json :=
+  let ctf := (getArr? j "rows" >>= parseCtfRows)
+  let inp : Option (DefocusIn Rat) := match getStr? j "kind" with
+    | some "file" => (getStr? j "file_type").map (fun ft =>
+        DefocusIn.file ft (if (getStr? j "content") == some "gctf" then ctf else none)
+          (if (getStr? j "content") == some "ctffind" then ctf.map (·.map (fun r => (r.1, r.2.1, r.2.2.1, r.2.2.2.getD 0))) else none))
+    | some "frame" => ((j.getObjVal? "arr").toOption >>= parseRatRows).bind (fun rs =>
+        (defocusLoadIn Gen.C17.angToMicronGctf Gen.C17.angToMicronCtffind Gen.C17.meanDivisor (DefocusIn.array rs)).map DefocusIn.frame)
+    | some "array" => ((j.getObjVal? "arr").toOption >>= parseRatRows).map DefocusIn.array
+    | _ => none
+  match inp with
+  | none => err "bad-args"
+  | some inp =>
+    let reader : Json := match inp with
+      | .file ft _ _ => optJ (fun (s : String) => Json.str s) (defocusReader ft)
+      | _ => Json.null
+    Json.mkObj [("reader", reader),
+                ("out", optJ (listJ defocusJ) (defocusLoadIn Gen.C17.angToMicronGctf Gen.C17.angToMicronCtffind Gen.C17.meanDivisor inp))]
+
 def handle (j : Json) : Json :=
   match getStr? j "op" with
+  | some "tlt_in" => handleLoadIn j false
+  | some "dose_in" => handleLoadIn j true
+  | some "defocus_in" => handleDefocusIn j
   | some "mdoc" => handleMdoc j
   | some "defocus" => handleDefocus j
   | some "wedge" => handleWedge j
